@@ -255,3 +255,8 @@ def fidelity(tier, seed):
     """A-FRONT guard: MSSM a_mu and mass-matrix functions, interpreter (float mode) vs compiled real code on real spectra"""
     from gm2v import fidelity as _fid
     return _fid.mssm_model_guard(seed=seed)
+
+# Contracts on single calls carry over to every call in a process only if no function keeps state between calls: C19's static-frame obligation is a lemma here.
+from contracts.shared import reregister as _rr_static
+from contracts import c19 as _c19_static
+_rr_static('C06', 'C19', 'C19.no_stateful_local_statics', 'C06.lemma.no_state_between_calls', replay=None)
